@@ -39,7 +39,9 @@ struct Buffer {
 }
 
 impl Buffer {
-    fn enqueue(&mut self, msg: Message, con: Connection) {
+    fn enqueue(&mut self, msg: Message, mut con: Connection) {
+        // The buffered connection must not keep its own channel alive.
+        con.channel = None;
         self.acc_bytes += msg.length();
         self.packets.push_back((msg, con));
     }
@@ -263,10 +265,12 @@ impl Channel {
             if chan.busy {
                 break;
             }
-            let Some((msg, next_gate)) = chan.buffer.dequeue() else {
+            let Some((msg, mut next_gate)) = chan.buffer.dequeue() else {
                 break;
             };
             drop(chan);
+            // The handle was cleared while the connection was buffered.
+            next_gate.channel = Some(self.clone());
             self.clone().send_message(msg, next_gate, sink);
         }
     }
